@@ -45,6 +45,15 @@ func (e *OpEngine) labelledData(name string, dims []int, prefix []sym.Poly) inte
 	return interp.IfaceV{T: e.anySlice(), V: e.M.SliceOf(e.A.AnyT, vals, "data:"+name)}
 }
 
+// applyAlias rewrites the elements of aliased tensors (exact-tie cases) to the elements they are equal to.
+func (e *OpEngine) applyAlias(x sym.Expr) sym.Expr {
+	for from, to := range e.leafAlias {
+		to := to
+		x = x.SubstLeaf(from, func(idx []sym.Poly) sym.Expr { return sym.LeafE(to, idx) })
+	}
+	return x
+}
+
 // mkTensorConst creates an operand every element of which is the constant c (e.g. NaN).
 func (e *OpEngine) mkTensorConst(name string, dims []int, tracked bool, c sym.Expr) interp.PtrV {
 	t := e.mkTensor(name, TensorArg{Dims: concreteDims(dims), Tracked: tracked, Rng: spec.Rng(-10, 10)})
@@ -142,8 +151,8 @@ func (e *OpEngine) compareData(key, pos string, impl interp.PtrV, specElem sym.E
 		for k, i := range idx {
 			m[spec.IxName(k)] = sym.PInt(int64(i))
 		}
-		want := specElem.SubstIdx(m)
-		g := got[fmt.Sprint(idx)]
+		want := e.applyAlias(specElem.SubstIdx(m))
+		g := e.applyAlias(got[fmt.Sprint(idx)])
 		if !e.sameExpr(g, want, nil) {
 			verdict, wit := e.numericCompare(g, want, nil)
 			if verdict == 1 {
@@ -276,8 +285,31 @@ func shapesUpTo(b DataBounds, minRank int) [][]int {
 
 func dimsLabel(d []int) string { return strings.ReplaceAll(fmt.Sprint(d), " ", ",") }
 
+// mkTensorPeriodic creates an operand [n,1] whose elements alternate between the two real symbols <name>p and
+// <name>q along the flat index.
+func (e *OpEngine) mkTensorPeriodic(name string, n int, tracked bool) interp.PtrV {
+	dims := []int{n, 1}
+	t := e.mkTensor(name, TensorArg{Dims: concreteDims(dims), Tracked: tracked, Rng: spec.Rng(-10, 10)})
+	P, Q := sym.SymE(name+"p"), sym.SymE(name+"q")
+	par := sym.IMod(spec.Ix(0), sym.PInt(2))
+	e.W.InfoOf(t).Elem = sym.Add(sym.Mul(P, sym.Ind(sym.IntCond(sym.CEq(par, sym.PInt(0))))), sym.Mul(Q, sym.Ind(sym.IntCond(sym.CEq(par, sym.PInt(1))))))
+	rows := make([]interp.Value, n)
+	for i := range rows {
+		v := P
+		if i%2 == 1 {
+			v = Q
+		}
+		el := interp.IfaceV{T: e.A.FloatT, V: interp.FloatV{E: v}}
+		rows[i] = interp.IfaceV{T: e.anySlice(), V: e.M.SliceOf(e.A.AnyT, []interp.Value{el}, "data:"+name)}
+	}
+	interp.Store(t.C.Fields[e.A.FData], interp.IfaceV{T: e.anySlice(), V: e.M.SliceOf(e.A.AnyT, rows, "data:"+name)})
+	return t
+}
+
 // DataCall is one labelled-element instance.
 type DataCall struct {
+	// Steps, when > 0, raises the interpreter's step budget for this instance (tensors with thousands of elements)
+	Steps int
 	Fn    *ssa.Function
 	Label string
 	Facts sym.Facts
@@ -291,6 +323,9 @@ type DataCall struct {
 type DataCase struct {
 	Name  string
 	Facts sym.Facts
+	// Alias: in this case every element of tensor Alias[k] equals the element of tensor k at the same position
+	// (exact ties): both sides of a comparison are rewritten accordingly
+	Alias map[string]string
 }
 
 // RunDataInstance interprets the call completely and compares every result element (done inside the
@@ -306,6 +341,10 @@ func (e *OpEngine) RunDataInstance(c *DataCall) {
 		if dc.Name != "" {
 			label += " case " + dc.Name
 		}
+		saveSteps := e.M.MaxSteps
+		if c.Steps > 0 {
+			e.M.MaxSteps = c.Steps
+		}
 		_, err := e.M.Explore(400, func() {
 			e.Begin()
 			sym.ActiveFacts = nil
@@ -313,7 +352,8 @@ func (e *OpEngine) RunDataInstance(c *DataCall) {
 			e.LeafRng = nil
 			args := c.Build(e)
 			sym.ActiveFacts = dc.Facts
-			defer func() { sym.ActiveFacts = nil }()
+			e.leafAlias = dc.Alias
+			defer func() { sym.ActiveFacts = nil; e.leafAlias = nil }()
 			e.curMethod, e.curExpanding, e.curLabel = c.Fn.Name(), false, label
 			e.baseline, e.watch = e.M.CellSeq(), true
 			out := e.M.Run(func() interp.Value { return e.M.Call(c.Fn, args, nil) })
@@ -332,6 +372,7 @@ func (e *OpEngine) RunDataInstance(c *DataCall) {
 				}
 			}
 		})
+		e.M.MaxSteps = saveSteps
 		if err != nil {
 			e.undecided("interp", key, "unsupported", e.P.FuncPos(c.Fn), fmt.Sprintf("%v [instance %s]", err, label))
 		}
@@ -365,7 +406,9 @@ func pairCases(d []int, withNear bool) []DataCase {
 		}
 		return DataCase{Name: name, Facts: f}
 	}
-	out := []DataCase{mk("a>>b", sym.SignBigPos), mk("a==b", sym.SignZero), mk("a<<b", sym.SignBigNeg)}
+	tie := mk("a==b", sym.SignZero)
+	tie.Alias = map[string]string{"B": "A"}
+	out := []DataCase{mk("a>>b", sym.SignBigPos), tie, mk("a<<b", sym.SignBigNeg)}
 	if withNear {
 		out = append(out, mk("0<a-b<=tol", sym.SignSmallPos), mk("-tol<=a-b<0", sym.SignSmallNeg))
 	}
@@ -647,6 +690,53 @@ func (e *OpEngine) DataInstances(want func(string) bool, b DataBounds) []*DataCa
 					e.find("D.elements", key, "equals-self", e.P.FuncPos(fn), fmt.Sprintf("Equals of a tensor with itself returns %v [%s]: NaN differs from itself, everything else equals itself", bv.Val, lbl))
 				}
 			}})
+		}
+	}
+	// beyond an element-count constant in the thousands: two-symbol periodic operands
+	for _, c := range e.hugeThresholds() {
+		n := c + 1
+		for _, nm := range []string{"Exp", "Scale", "Sum", "Avg", "Mean", "Var", "Std", "SumAlong", "AvgAlong", "MeanAlong", "VarAlong"} {
+			if !want(nm) {
+				continue
+			}
+			nm := nm
+			fn := e.method(nm)
+			key := "cputensor.(*CPUTensor)." + nm
+			variants := []int{-1}
+			if strings.HasSuffix(nm, "Along") {
+				variants = []int{0, 1}
+			}
+			for _, dim := range variants {
+				dim := dim
+				lbl := fmt.Sprintf("%s A=[%d,1] two-symbol periodic", nm, n)
+				if dim >= 0 {
+					lbl += fmt.Sprintf(" dim=%d", dim)
+				}
+				var recv interp.PtrV
+				dc := &DataCall{Fn: fn, Label: lbl, Steps: 40000000, Build: func(e *OpEngine) []interp.Value {
+					recv = e.mkTensorPeriodic("A", n, false)
+					switch {
+					case nm == "Scale":
+						return []interp.Value{recv, interp.FloatV{E: sym.SymE("c")}}
+					case dim >= 0:
+						return []interp.Value{recv, cInt(dim)}
+					}
+					return []interp.Value{recv}
+				}}
+				switch nm {
+				case "Sum", "Avg", "Mean", "Var", "Std":
+					dc.OnResult = func(e *OpEngine, caseName string, res []interp.Value) {
+						e.did("D.elements", key)
+						wantV, ok := e.W.Method(nm, recv, nil)
+						if !ok || len(res) != 1 {
+							e.undecided("D.elements", key, "no-spec", e.P.FuncPos(fn), "no specification for "+nm)
+							return
+						}
+						e.compareScalar(key, e.P.FuncPos(fn), res[0], wantV, lbl)
+					}
+				}
+				add(dc)
+			}
 		}
 	}
 	bpairs := broadcastPairsC(b)
